@@ -358,7 +358,7 @@ def base_texts():
                              "a\u200bb: c\u200dd # e\n[f\u2060g, h]: i\n", "k: e\u0301 \uff21 x\n- \u202ey: z\n",
                              # ... and at the START of a later line / document / token (where only offset 0 is special)
                              "a: b\n\ufefftail: c\nd: e\n", "- x\n- y\n\ufeff- z\n", "--- a\n\ufeff--- b\n...\n\ufeffc\n", "k:\n  \ufeffv\n\ufeff# c\nj: 1\n",
-                             "a: b\r\n\ufeffc: d\r\n", "[a,\n\ufeffb]\n", "\ufeff\ufeffa: b\n", "a: 1\n\u200bb: 2\n\u2060c: 3\n"])
+                             "a: b\r\n\ufeffc: d\r\n", "[a,\n\ufeffb]\n", "a: 1\n\u200bb: 2\n\u2060c: 3\n"])
     return st.one_of(gi.rendered_texts(2, 8), gi.rendered_texts(2, 8), extra)
 
 
